@@ -282,7 +282,7 @@ def run():
             if H.out_of_time(0.4):
                 H.note_truncated('iter_splitlines texts stopped at length %d by time budget' % k)
                 break
-        for t in ('a\r\n\r\nb', 'x' * 5000 + '\n' + 'y' * 5000, '\r\n' * 50, 'a 28 b 29 c d ', ' 2028', '\\u2028'):
+        for t in ('a\r\n\r\nb', 'x' * 5000 + '\n' + 'y' * 5000, '\r\n' * 50, 'a 28 b 29 c\u2028d\u2029', ' 2028', '\\u2028'):
             H.ev(key=t, nontrivial=True, part='splitlines_texts')
             check_splitlines(H, t)
         check_codepoints(H)
